@@ -178,4 +178,23 @@ theorem feedAll_good {bs : Bytes} {tbl : Tbl} (hb : okBegin bs = true) :
     refine ⟨?_, k, hk, h1, hsuf.trans hlast⟩
     rw [h2, hfr, List.map_append, List.append_assoc]
 
+/-- hypotheses on a stream description (kept as separate hypotheses in the theorems) -/
+theorem good_of {bs : Bytes} {tbl : Tbl} {frames gs : List Bytes}
+    (hv : ∀ f ∈ frames, WFFrame bs f ∧ ∃ m, decode bs tbl f = .msg m f.length f)
+    (hg : ∀ g ∈ gs, NoMarker g) (hlen : gs.length = frames.length + 1) :
+    ∃ g0 gs', gs = g0 :: gs' ∧ Good bs tbl (g0 :: gs') frames := by
+  cases gs with
+  | nil => simp at hlen
+  | cons g0 gs' => exact ⟨g0, gs', rfl, ⟨hv, hg, hlen⟩⟩
+
+theorem short_nil {bs : Bytes} {tbl : Tbl} {frames : List Bytes} (g0 : Bytes) (hb : okBegin bs = true)
+    (hv : ∀ f ∈ frames, WFFrame bs f ∧ ∃ m, decode bs tbl f = .msg m f.length f) :
+    Short [] g0 frames := by
+  cases frames with
+  | nil => exact ⟨0, by omega, rfl⟩
+  | cons f fs =>
+    have := WFFrame_length hb (hv f (by simp)).1
+    show ([] : Bytes).length < g0.length + f.length
+    simp only [List.length_nil]; omega
+
 end AsyncFix.Model.Codec
